@@ -13,4 +13,5 @@ void registerAll()
     reg_proxy();
     reg_life();
     reg_lifed();
+    reg_tls();
 }
